@@ -412,6 +412,37 @@ def run_jobs(jobs, seed, stdin_by_job=None):
     return lines, counts, failures
 
 
+def field_distribution(prefixes, names, numeric=()):
+    """a `distribution` callback for simple_check: for the lines starting with one of `prefixes`, how often each value of the
+    fields `names` occurs (`numeric` fields are bucketed by powers of 4)"""
+    def bucket(v):
+        try:
+            n = int(v)
+        except ValueError:
+            return v[:20]
+        b = 0
+        while n > b:
+            b = max(1, b * 4)
+        return "<=%d" % b
+
+    def run(lines):
+        from collections import Counter
+        out = {n: Counter() for n in names}
+        total = 0
+        for l in lines:
+            if not any(l.startswith(p) for p in prefixes):
+                continue
+            total += 1
+            f = dict(w.split("=", 1) for w in l.split()[1:] if "=" in w)
+            for n in names:
+                v = f.get(n, "?")
+                out[n][bucket(v) if n in numeric else v[:24]] += 1
+        d = {n: dict(c.most_common(24)) for n, c in out.items()}
+        d["lines"] = total
+        return d
+    return run
+
+
 class ErrTail(str):
     """stderr tail of a failed harness job, with its exit code, the last case it announced and its command line"""
     rc = 0
@@ -419,7 +450,7 @@ class ErrTail(str):
     cmd = ""
 
 
-def simple_check(ctx, jobs, rule, nontrivial, describe=None, known_filter=None, correspondence="", assumptions=(), shrinker=None,
+def simple_check(ctx, jobs, rule, nontrivial, describe=None, known_filter=None, correspondence="", assumptions=(), shrinker=None, distribution=None,
                  evals_per_line=1, sample_filter=None):
     """nontrivial(line) -> hashable key or None."""
     pid = ctx.pid
@@ -451,6 +482,11 @@ def simple_check(ctx, jobs, rule, nontrivial, describe=None, known_filter=None, 
     samples = [l[:400] for l in lines if (sample_filter(l) if sample_filter else True)][:3]
     ctx.coverage.update(evaluations=len(lines) * evals_per_line, distinct_nontrivial=len(keys), streams=counts, rule=rule,
                         samples=samples or ["(no cases: harness did not run)"], model_disagreements=len(diffs), oracle_failures=len(mine))
+    if distribution is not None:
+        try:
+            ctx.coverage["input_distribution"] = distribution(lines)
+        except Exception as ex:      # the distribution is descriptive only; never let it decide a check
+            ctx.coverage["input_distribution"] = {"error": str(ex)[:200]}
     ctx.assumptions += list(assumptions)
     unknown = []
     seen_known = {}
